@@ -254,6 +254,7 @@ class Encoder:
           if r[0] in ('L', 'C', 'T'):
             continue
           acc.setdefault(self.canon(r), []).append((tid, pc, r in Wr, frozenset(self.lockset[tid][pc])))
+    self.acc = acc
     self.racy = set()
     self.racy_at = set()
     for r, lst in acc.items():
@@ -1031,6 +1032,8 @@ def extract(enc, sysm, m, states, scheds, choices):
     ins = sysm.threads[i].ins[pc]
     tr['steps'].append({'step': t, 'thread': i, 'name': sysm.threads[i].name, 'pc': pc, 'op': ins['op'], 'line': ins['line'],
                         'timeout_fired': val(choices[t]) if ins['op'] == 'wake' and val(st[('w', ins['cond'], i)]) != NOTIFIED else 0})
+    if __import__('os').environ.get('VF_DEBUG_BMC'):
+      tr['steps'][-1]['locks_before'] = {l: (val(st[('own', l)]), val(st[('cnt', l)])) for l in sysm.locks}
   st = states[-1]
   for i in range(n):
     pc = val(st[('pc', i)])
